@@ -40,9 +40,14 @@ def build(fmt, choice, faults=(), **kw):
     """returns (request, result) or None when the fault does not apply to these keys"""
     cred_id = kw.pop("cred_id", None)
     aaguid = kw.pop("aaguid", None)
+    cose_var = kw.pop("cose_var", None)
     if fmt == "fido-u2f":
         aaguid = None       # U2F demands the zero AAGUID
-    req = attest.RegRequest(fmt=fmt, cred=make_cred(choice, cred_id=cred_id, aaguid=aaguid), faults=set(faults), **kw)
+    cred = make_cred(choice, cred_id=cred_id, aaguid=aaguid)
+    if cose_var:
+        import dataclasses
+        cred = dataclasses.replace(cred, **{k: v for k, v in cose_var.items() if v is not None})
+    req = attest.RegRequest(fmt=fmt, cred=cred, faults=set(faults), **kw)
     try:
         return req, attest.build_registration(req)
     except attest.NotApplicable:
